@@ -43,7 +43,9 @@ else:
   # last selector: 0 = first merge of the process state, 1 = preceded by the
   # merge of a fixed pair whose stub needs a non-typing import (the merged text
   # of a pair must not depend on what was merged before it)
-  RANGES = [4, 4, len(PARAM_TYPES), len(RET_TYPES), 2, 2]
+  # cform 4: the program already carries bare-Any annotations; hdr: 0 = the stub imports from typing,
+  # 1 = from typing_extensions
+  RANGES = [5, 4, len(PARAM_TYPES), len(RET_TYPES), 2, 2, 2]
 SEL = Tuple[(int,) * len(RANGES)]
 
 
@@ -71,11 +73,11 @@ def _typing_names(types):
   return sorted(names)
 
 
-def _stub_header(types):
+def _stub_header(types, module="typing"):
   names = _typing_names(types)
   out = ""
   if names:
-    out += "from typing import %s\n" % ", ".join(names)
+    out += "from %s import %s\n" % (module, ", ".join(names))
   if "TypeVar" in names:
     out += "T = TypeVar('T')\n"
   if "Decimal" in [t for t in types if t]:
@@ -134,10 +136,13 @@ def build(d):
       exp["f.inner.a"] = None
       exp["f.inner.return"] = None
     return py, pyi, exp, existing
-  cform, ct, pt, rt, dstub, _ = d
+  cform, ct, pt, rt, dstub, _, hdr = d
   ptype, rtype = PARAM_TYPES[pt], RET_TYPES[rt]
   ctype = [None, "int", "list[int]", "Any"][ct]
   py = "class A:\n  c = g()\n"
+  if cform == 4:
+    py = "from typing import Any\nclass A:\n  c: Any = g()\n"
+    existing["A.c"] = "Any"
   meth = "m"
   if cform == 0:
     py += "  def m(self, a):\n    return a\n"
@@ -146,19 +151,22 @@ def build(d):
   elif cform == 2:
     py += "  def m(self, a: str) -> str:\n    return a\n"
     existing["A.m.a"], existing["A.m.return"] = "str", "str"
-  else:
+  elif cform == 3:
     py += "  @classmethod\n  def m(cls, a):\n    return a\n"
-  pyi = _stub_header([ptype, rtype, ctype]) + "class A:\n"
+  else:
+    py += "  def m(self, a) -> Any:\n    return a\n"
+    existing["A.m.return"] = "Any"
+  pyi = _stub_header([ptype, rtype, ctype], "typing_extensions" if hdr else "typing") + "class A:\n"
   if ctype:
     pyi += "  c: %s\n" % ctype
-  first = {0: "self, ", 1: "", 2: "self, ", 3: "cls, "}[cform]
-  sdeco = {0: "", 1: "  @staticmethod\n", 2: "", 3: "  @classmethod\n"}[cform] if dstub else ""
+  first = {0: "self, ", 1: "", 2: "self, ", 3: "cls, ", 4: "self, "}[cform]
+  sdeco = {0: "", 1: "  @staticmethod\n", 2: "", 3: "  @classmethod\n", 4: ""}[cform] if dstub else ""
   pyi += "%s  def %s(%sa: %s)%s: ...\n" % (sdeco, meth, first, ptype, " -> %s" % rtype if rtype else "")
   exp["A.c"] = None if ctype in (None, "Any") or ctype in TRIVIAL else ctype
   exp["A.m.a"] = existing.get("A.m.a", ptype)
   exp["A.m.return"] = existing.get(
       "A.m.return", None if rtype in ("Any", "Never", None) else rtype)
-  if cform in (0, 2):
+  if cform in (0, 2, 4):
     exp["A.m.self"] = None
   if cform == 3:
     exp["A.m.cls"] = None
@@ -195,11 +203,21 @@ def _stripped_dump(src, original_src=None, stub_src=None):
   tree = ast.parse(src)
   if original_src is not None:
     orig_top = {ast.dump(n) for n in ast.parse(original_src).body}
+    orig_typing = {(n.module, a.name, a.asname) for n in ast.parse(original_src).body
+                   if isinstance(n, ast.ImportFrom) for a in n.names}
     body = []
     for n in tree.body:
       added = ast.dump(n) not in orig_top
       if added and isinstance(n, ast.ImportFrom) and n.module in ("typing", "typing_extensions"):
+        # names the merge added to (or as) a typing import are dropped; names
+        # the program imported itself must still be there
+        n.names = [a for a in n.names if (n.module, a.name, a.asname) in orig_typing]
+        if n.names:
+          body.append(n)
         continue
+      if added and isinstance(n, ast.Import) and all(
+          a.name in ("typing", "typing_extensions") for a in n.names):
+        continue   # `import typing_extensions`: libcst's qualified spelling of clashing names
       if added and isinstance(n, (ast.ImportFrom, ast.Import)) and all(
           (a.asname or a.name).split(".")[0] in (_annotation_names(src) | _annotation_names(stub_src or ""))
           for a in n.names):
@@ -234,7 +252,9 @@ def _annotations(src):
   out = {}
 
   def ann(a):
-    return None if a is None else ast.unparse(a)
+    # libcst spells a stub name that clashes with a program import in qualified
+    # form (typing_extensions.Any); same annotation
+    return None if a is None else ast.unparse(a).replace("typing_extensions.", "").replace("typing.", "")
 
   def walk(body, prefix):
     for n in body:
@@ -313,7 +333,7 @@ def h_merge(s: SEL) -> bool:
   py, pyi, exp, existing = build(d)
   if kf_skip(kf_class(d)):
     return True
-  if FAMILY == 1 and d[-1] == 1:
+  if FAMILY == 1 and d[5] == 1:
     merge_pyi.merge_sources(py=HIST_PY, pyi=HIST_PYI)
   merged = merge_pyi.merge_sources(py=py, pyi=pyi)
   bad = judge(py, pyi, merged, exp, existing)
@@ -325,7 +345,7 @@ def explain(fn, s):
   d = tuple(int(x) for x in s)
   py, pyi, exp, existing = build(d)
   try:
-    if FAMILY == 1 and d[-1] == 1:
+    if FAMILY == 1 and d[5] == 1:
       merge_pyi.merge_sources(py=HIST_PY, pyi=HIST_PYI)
     merged = merge_pyi.merge_sources(py=py, pyi=pyi)
     bad = judge(py, pyi, merged, exp, existing)
